@@ -1096,9 +1096,20 @@ type responseWriter struct {
 	// trailers before writing the first bytes of data (like Connect
 	// and REST unary).
 	buf *bytes.Buffer
+	// handed to the handler in place of the real headers once the end is written
+	discardedHeader http.Header
 }
 
 func (w *responseWriter) Header() http.Header {
+	if w.endWritten {
+		// The outcome of the RPC has already been sent. Anything the handler sets
+		// from here on (in particular trailers carrying its own status) must not
+		// reach the client as a second, contradicting outcome.
+		if w.discardedHeader == nil {
+			w.discardedHeader = make(http.Header)
+		}
+		return w.discardedHeader
+	}
 	return w.delegate.Header()
 }
 
